@@ -1,11 +1,16 @@
 """unit mcs: src/core/mcs.rs + src/core/gcc.rs above the x224 layer.
 C03 (connect-initial, erect-domain, attach-user, one join per channel, in that order, with the server-assigned ids), C05 (hostile bytes during setup),
-C04 (GCC blocks / MCS headers well formed), C18 (Version::from, PER prefix of the conference request), C11/C12 (mcs::Client::write contract used above)."""
+C04 (GCC blocks / MCS headers well formed), C18 (Version::from, PER prefix of the conference request), C11/C12 (mcs::Client::write contract used above).
+Everything below (link/tpkt/x224, nego, per) is assumed through the contracts proved in those units, except per::write_numeric_string and
+per::write_padding, whose real bodies are re-verified here with one byte-level clause each (needed by the byte-exact T.124 wrapper).
+Declared rewrites (R6): `reader.take(n)` -> take_reader, `for x in map.values()` -> hashmap_values snapshot (+ the ghost iterator is named `__it:`),
+`map.iter().find(|x| *x.1 == v)` -> hashmap_find_by_value.  Not provable and therefore not claimed: totality (`r is Ok`) of erect_domain_request, because
+per::write_integer's contract (generic over `impl Write`) does not say that writing into an in-memory Cursor succeeds."""
 from vx.spec import *
 from vx.layouts import shape_clauses
 from specs import nego as N
 from specs import per as P
-from specs.common import PER_SPECS_TEXT, FRAME_SPECS_TEXT, MCS_SPECS_TEXT, MCS_WRITE, MCS_READ
+from specs.common import PER_SPECS_TEXT, FRAME_SPECS_TEXT, MCS_SPECS_TEXT, MCS_WRITE, MCS_READ, MCS_V5
 
 MCS = "src/core/mcs.rs"
 GCC = "src/core/gcc.rs"
@@ -72,6 +77,12 @@ pub open spec fn gcc_ccr(user_data: Seq<u8>) -> Seq<u8> {
         + seq![0u8, 8u8, 0u8, 0x10u8, 0u8, 1u8, 0xc0u8, 0u8, 0x44u8, 0x75u8, 0x63u8, 0x61u8] + per::per_len(user_data.len() as u16) + user_data
 }
 """, mod="gcc", name="gcc_specs"))
+A(Raw(r"""
+impl vstd::std_specs::cmp::PartialEqSpecImpl for Version {
+    open spec fn obeys_eq_spec() -> bool { true }
+    open spec fn eq_spec(&self, other: &Version) -> bool { *self == *other }
+}
+""", mod="gcc", name="derived_eq_version", trusted="derived PartialEq of the field-less enum gcc::Version is structural"))
 def GF(name, impl=None, **kw):
     A(Fn(GCC, name, impl=impl, mod="gcc", **kw))
 def len_chain(res, sizes):
@@ -89,7 +100,9 @@ GF("from", impl=r"From<u32> for Version", props=["C18", "C05"],
    ensures=[("C18", "named-versions", "(e == 0x00080001 ==> r == Version::RdpVersion) && (e == 0x00080004 ==> r == Version::RdpVersion5plus) && (e != 0x00080001 && e != 0x00080004 ==> r == Version::Unknown)")])
 GF("from", impl=r"From<u16> for MessageType", props=["C05"])
 GF("client_core_data", ret="c", props=["C04"], fuel=3, post=len_chain("c", CORE_SIZES),
-   hints=[(r"let mut client_name = client_parameter\.name\.to_unicode\(\);", 1, "let ghost u = client_name@; proof { assert(u == utf16le(if parameter is Some { parameter->Some_0.name@ } else { \"\"@ })); }"),
+   # ghost snapshots are kept in hint entries of their own (no assertion inside) so that they survive a hint-free re-run
+   hints=[(r"let mut client_name = client_parameter\.name\.to_unicode\(\);", 1, "let ghost u = client_name@;"),
+          (r"let mut client_name = client_parameter\.name\.to_unicode\(\);", 1, "proof { assert(u == utf16le(if parameter is Some { parameter->Some_0.name@ } else { \"\"@ })); }"),
           (r"client_name\.truncate\(30\);", 1, "proof { assert(client_name@ =~= u.take(30)); assert(client_name@[29] == u[29]); }"),
           (r"client_name\.truncate\(28\);", 1, "proof { assert(client_name@ =~= u.take(28)); }"),
           (r"client_name\.resize\(32, 0\);", 1, "proof { assert(client_name@ =~= client_name_bytes(u)); }")],
@@ -109,7 +122,8 @@ GF("block_header", ret="c", props=["C04", "C05"], fuel=4, pre="proof { reveal_wi
    ensures=shape_clauses(GCC, "block_header", res="c") + [("C04", "bytes", "ser(c.mv()) =~= ud_header((if data_type is Some { data_type->Some_0 as u16 } else { 0xC001u16 }), (if length is Some { length->Some_0 as int } else { 0 }))"), (None, "static", "is_static(c.mv())")])
 GF("write_conference_create_request", props=["C04", "C18", "C03"], requires=["user_data@.len() + 14 <= 0x7fff"],
    hints=[(r"per::write_object_identifier\(", 1, "proof { assert((0u8 << 4u8) | (0u8 & 0xfu8) == 0u8) by(bit_vector); assert(result.written() =~= seq![0u8, 5u8, 0u8, 20u8, 124u8, 0u8, 1u8]); }"),
-          (r"per::write_length\(", 1, "let ghost w1 = result.written(); proof { assert(w1 =~= seq![0u8, 5u8, 0u8, 20u8, 124u8, 0u8, 1u8] + per::per_len((user_data@.len() + 14) as u16)); }"),
+          (r"per::write_length\(", 1, "let ghost w1 = result.written();"),
+          (r"per::write_length\(", 1, "proof { assert(w1 =~= seq![0u8, 5u8, 0u8, 20u8, 124u8, 0u8, 1u8] + per::per_len((user_data@.len() + 14) as u16)); }"),
           (r"per::write_padding\(", 1, "proof { assert(Seq::new(1nat, |i: int| 0u8) =~= seq![0u8]); assert(result.written() =~= w1 + seq![0u8, 8u8, 0u8, 0x10u8, 0u8]); }"),
           (r"per::write_octet_stream\(&H221_CS_KEY", 1, "proof { assert(per::per_len(0u16) =~= seq![0u8]); assert(result.written() =~= w1 + seq![0u8, 8u8, 0u8, 0x10u8, 0u8, 1u8, 0xc0u8, 0u8, 0x44u8, 0x75u8, 0x63u8, 0x61u8]); }")],
    ensures=[("C04,C18", "t124-wrapper", "r is Ok ==> r->Ok_0@ =~= gcc_ccr(user_data@)")])
@@ -137,7 +151,9 @@ impl<S: Read + Write + Duplex> Client<S> {
     pub open spec fn connected(&self) -> bool {
         self.uid() is Some && self.uid()->Some_0 >= 1001 && self.chans().contains_key("global"@)
     }
-    pub open spec fn same_session(&self, o: &Self) -> bool { self.uid() == o.uid() && self.chans() == o.chans() && self.tls() == o.tls() }
+    pub closed spec fn server_known(&self) -> bool { self.server_data is Some }
+    pub closed spec fn v5plus(&self) -> bool { self.server_data is Some && self.server_data->Some_0.rdp_version == Version::RdpVersion5plus }
+    pub open spec fn same_session(&self, o: &Self) -> bool { self.uid() == o.uid() && self.chans() == o.chans() && self.tls() == o.tls() && self.server_known() == o.server_known() && self.v5plus() == o.v5plus() }
 }
 /// T.125 PDUs of the connection sequence (MS-RDPBCGR 2.2.1.5 - 2.2.1.9)
 pub open spec fn erect_domain_bytes() -> Seq<u8> { seq![0x04u8, 1u8, 0u8, 1u8, 0u8] }
@@ -178,10 +194,12 @@ A(Stub(MCS, "connect_initial", mod="mcs", why=DER_WHY))
 A(Stub(MCS, "connect_response", mod="mcs", why=DER_WHY, ensures=["r.inner.skeys().contains(\"userData\"@) && r.inner.octet_keys().contains(\"userData\"@)"]))
 MF("mcs_pdu_header", props=["C04", "C03"], ensures=[("C04", "choice-and-options", "r == (((if pdu is Some { pdu->Some_0 as u8 } else { 11u8 }) << 2) | (if options is Some { options->Some_0 } else { 0u8 }))")])
 # `confirm` = trame![u8, Vec (read to end)]: a plain layout, so the bytes consumed are ser(confirm) = [header] + body (Message::read, is_plain clause)
-CONFIRM_PRE = "let ghost b = buffer.rest(); proof { lemma_pdu_headers(); reveal_with_fuel(is_plain, 3); reveal_with_fuel(same_shape, 3); }"
-CONFIRM_HINTS = [(r"confirm\.read\(buffer\)\?;", 1, "let ghost m0 = confirm.mv(); proof { assert(m0->Trame_0 =~= seq![MV::U8(0), MV::Bytes(Seq::empty())]); assert(is_plain(m0)); }", "before"),
-                 (r"confirm\.read\(buffer\)\?;", 1, """let ghost m = confirm.mv(); let ghost body = m->Trame_0[1]->Bytes_0;
-    proof {
+CONFIRM_PRE = "let ghost b = buffer.rest();"
+CONFIRM_HINTS = [(r"let mut confirm = trame!", 1, "proof { lemma_pdu_headers(); reveal_with_fuel(is_plain, 3); reveal_with_fuel(same_shape, 3); }", "before"),
+                 (r"confirm\.read\(buffer\)\?;", 1, "let ghost m0 = confirm.mv();", "before"),
+                 (r"confirm\.read\(buffer\)\?;", 1, "proof { assert(m0->Trame_0 =~= seq![MV::U8(0), MV::Bytes(Seq::empty())]); assert(is_plain(m0)); }", "before"),
+                 (r"confirm\.read\(buffer\)\?;", 1, "let ghost m = confirm.mv(); let ghost body = m->Trame_0[1]->Bytes_0;"),
+                 (r"confirm\.read\(buffer\)\?;", 1, """proof {
         let s = m->Trame_0;
         assert(same_shape(m0->Trame_0[0], s[0]) && same_shape(m0->Trame_0[1], s[1]));
         assert(ser(m) =~= seq![s[0]->U8_0] + body);
@@ -214,32 +232,42 @@ MF("read_connect_response", impl=r"Client<S>", props=["C05", "C03"],
 MF("connect", impl=r"Client<S>", props=["C03", "C05"], requires=["old(self).uid() is None", "old(self).chans() == Map::<Seq<char>, u16>::empty()"],
    body_sub=[(r"for channel_id in self\.channel_ids\.values\(\) \{", "let __channel_ids = hashmap_values(&self.channel_ids); for channel_id in __channel_ids.iter() {")],
    nloops=1,
-   pre="let ghost w0 = self.x224.written(); let ghost r0 = self.x224.rest(); proof { lemma_pdu_headers(); }",
-   hints=[(r"self\.read_connect_response\(\)\?;", 1, """let ghost ci = choose|ci: Seq<u8>| #[trigger] frame(ci).len() > 0 && self.x224.written() =~= w0 + frame(ci);
-        let ghost w1 = self.x224.written(); let ghost r1 = self.x224.rest();
-        proof { assert(w1 =~= w0 + frame(ci)); }""", "before"),
-          (r"self\.read_connect_response\(\)\?;", 1, "let ghost r2 = self.x224.rest(); proof { lemma_suffix_trans(r2, r1, r0); }"),
-          (r"self\.x224\.write\(erect_domain_request\(\)\?\)\?;", 1, "let ghost w2 = self.x224.written(); proof { assert(w2 =~= w1 + frame(erect_domain_bytes())); lemma_prefix_trans(w0, w1, w2); }"),
-          (r"self\.x224\.write\(attach_user_request\(\)\)\?;", 1, "let ghost w3 = self.x224.written(); proof { assert(w3 =~= w2 + frame(attach_user_bytes())); lemma_prefix_trans(w0, w2, w3); }"),
-          (r"self\.user_id = Some\(", 1, "let ghost r3 = self.x224.rest(); let ghost uid = self.user_id->Some_0; proof { lemma_suffix_trans(r3, r2, r0); }"),
-          (r"self\.channel_ids\.insert\(\"user\"", 1, """let ghost cm = self.channel_ids.m();
-        proof {
+   pre="let ghost w0 = self.x224.written(); let ghost r0 = self.x224.rest();",
+   # ghost snapshots are kept in hint entries of their own (no assertion inside) so that they survive a hint-free re-run
+   hints=[(r"self\.write_connect_initial\(", 1, "proof { lemma_pdu_headers(); }", "before"),
+          (r"self\.read_connect_response\(\)\?;", 1, """let ghost ci = choose|ci: Seq<u8>| #[trigger] frame(ci).len() > 0 && self.x224.written() =~= w0 + frame(ci);
+        let ghost w1 = self.x224.written(); let ghost r1 = self.x224.rest();""", "before"),
+          (r"self\.read_connect_response\(\)\?;", 1, "proof { assert(w1 =~= w0 + frame(ci)); }", "before"),
+          (r"self\.read_connect_response\(\)\?;", 1, "let ghost r2 = self.x224.rest();"),
+          (r"self\.read_connect_response\(\)\?;", 1, "proof { lemma_suffix_trans(r2, r1, r0); }"),
+          (r"self\.x224\.write\(erect_domain_request\(\)\?\)\?;", 1, "let ghost w2 = self.x224.written();"),
+          (r"self\.x224\.write\(erect_domain_request\(\)\?\)\?;", 1, "proof { assert(w2 =~= w1 + frame(erect_domain_bytes())); lemma_prefix_trans(w0, w1, w2); }"),
+          (r"self\.x224\.write\(attach_user_request\(\)\)\?;", 1, "let ghost w3 = self.x224.written();"),
+          (r"self\.x224\.write\(attach_user_request\(\)\)\?;", 1, "proof { assert(w3 =~= w2 + frame(attach_user_bytes())); lemma_prefix_trans(w0, w2, w3); }"),
+          (r"self\.user_id = Some\(", 1, "let ghost r3 = self.x224.rest(); let ghost uid = self.user_id->Some_0;"),
+          (r"self\.user_id = Some\(", 1, "proof { lemma_suffix_trans(r3, r2, r0); }"),
+          (r"self\.channel_ids\.insert\(\"user\"", 1, "let ghost cm = self.channel_ids.m();"),
+          # the map is exactly {"global" -> 1003, "user" -> uid}: two distinct keys
+          (r"self\.channel_ids\.insert\(\"user\"", 1, """proof {
             reveal_strlit("global"); reveal_strlit("user"); assert("global"@.len() == 6 && "user"@.len() == 4);
             assert(cm =~= Map::<Seq<char>, u16>::empty().insert("global"@, 1003u16).insert("user"@, uid));
             assert(cm.dom() =~= Set::<Seq<char>>::empty().insert("global"@).insert("user"@));
             assert(cm.dom().len() == 2);
         }"""),
-          (r"let __channel_ids = hashmap_values\(&self\.channel_ids\);", 1, """let ghost v = __channel_ids@;
-        proof {
+          (r"let __channel_ids = hashmap_values\(&self\.channel_ids\);", 1, "let ghost v = __channel_ids@;", "atend"),
+          # hashmap_values: |v| == |dom| == 2, every element is the value of a key, every key's value occurs: v is a permutation of [1003, uid]
+          (r"let __channel_ids = hashmap_values\(&self\.channel_ids\);", 1, """proof {
             assert(v.len() == 2);
             assert(cm.contains_key("global"@) && cm.contains_key("user"@));
             assert(forall|k: Seq<char>| cm.contains_key(k) ==> k == "global"@ || k == "user"@);
             assert((v[0] == 1003 || v[0] == uid) && (v[1] == 1003 || v[1] == uid));
             assert((v[0] == 1003 && v[1] == uid) || (v[1] == 1003 && v[0] == uid));
         }""", "atend"),
+          # names the ghost iterator of the for loop (Verus syntax, erased): __it.index@ = number of elements already visited
           (r"__channel_ids\.iter\(\)", 1, "__it:", "at"),
-          (r"self\.x224\.write\(channel_join_request\(", 1, "let ghost wa = self.x224.written(); let ghost ra = self.x224.rest();", "before"),
-          (r"self\.x224\.write\(channel_join_request\(", 1, "let ghost wb = self.x224.written(); proof { assert(*channel_id == v[__it.index@]); assert(wb =~= wa + frame(channel_join_bytes(uid, *channel_id))); lemma_prefix_trans(w0, wa, wb); }"),
+          (r"self\.x224\.write\(channel_join_request\(", 1, "let ghost wa = self.x224.written();", "before"),
+          (r"self\.x224\.write\(channel_join_request\(", 1, "let ghost wb = self.x224.written();"),
+          (r"self\.x224\.write\(channel_join_request\(", 1, "proof { assert(*channel_id == v[__it.index@]); assert(wb =~= wa + frame(channel_join_bytes(uid, *channel_id))); lemma_prefix_trans(w0, wa, wb); }"),
           (r"Ok\(\(\)\)", 1, """proof {
         assert(self.x224.written() == w3 + frame(channel_join_bytes(uid, v[0])) + frame(channel_join_bytes(uid, v[1])));
         assert((frame(ci) + frame(channel_join_bytes(uid, v[0])) + frame(channel_join_bytes(uid, v[1]))).len() > 0);
@@ -254,7 +282,7 @@ MF("connect", impl=r"Client<S>", props=["C03", "C05"], requires=["old(self).uid(
             __it.index@ == 0 ==> self.x224.written() == w3,
             __it.index@ == 1 ==> self.x224.written() == w3 + frame(channel_join_bytes(uid, v[0])),
             __it.index@ == 2 ==> self.x224.written() == w3 + frame(channel_join_bytes(uid, v[0])) + frame(channel_join_bytes(uid, v[1])),"""},
-   ensures=FRAME_CL + [("C03", "connected", "r is Ok ==> final(self).connected() && final(self).chans().contains_key(\"user\"@) && final(self).chans()[\"global\"@] == 1003 && final(self).chans()[\"user\"@] == final(self).uid()->Some_0 && final(self).server_data is Some"),
+   ensures=FRAME_CL + [("C03", "connected", "r is Ok ==> final(self).connected() && final(self).chans().contains_key(\"user\"@) && final(self).chans()[\"global\"@] == 1003 && final(self).chans()[\"user\"@] == final(self).uid()->Some_0 && final(self).server_known()"),
                        ("C03", "sequence-in-order", """r is Ok ==> exists|ci: Seq<u8>, c1: u16, c2: u16| #[trigger] (frame(ci) + frame(channel_join_bytes(final(self).uid()->Some_0, c1)) + frame(channel_join_bytes(final(self).uid()->Some_0, c2))).len() > 0
                             && ((c1 == 1003 && c2 == final(self).uid()->Some_0) || (c2 == 1003 && c1 == final(self).uid()->Some_0))
                             && final(self).written() =~= old(self).written() + frame(ci) + frame(erect_domain_bytes()) + frame(attach_user_bytes())
@@ -266,7 +294,7 @@ MF("read", impl=r"Client<S>", props=["C05", "C06", "C10"],
 MF("shutdown", impl=r"Client<S>", props=["C03"], fuel=8, pre="proof { lemma_pdu_headers(); }",
    ensures=[("C03", "disconnect-provider-ultimatum", "r is Ok ==> final(self).written() =~= old(self).written() + frame(disconnect_ultimatum_bytes())"),
             (None, "frame", "final(self).rest() == old(self).rest() && final(self).same_session(old(self)) && is_prefix(old(self).written(), final(self).written())")])
-MF("is_rdp_version_5_plus", impl=r"Client<S>", props=["C03"], requires=["self.server_data is Some"])
+MF("is_rdp_version_5_plus", impl=r"Client<S>", props=["C03", "C17"], **MCS_V5)
 MF("get_user_id", impl=r"Client<S>", props=["C03"], requires=["self.uid() is Some"], ensures=["r == self.uid()->Some_0"])
 MF("get_global_channel_id", impl=r"Client<S>", props=["C03"], requires=["self.chans().contains_key(\"global\"@)"], ensures=["r == self.chans()[\"global\"@]"])
 
